@@ -98,6 +98,18 @@ func HIncludeSplit() {
 		}
 	}
 	files["piece.jst"] = piece
+	if vParam("dirs", 0) == 1 && span >= 2 {
+		// two DIFFERENT files that are both written "inner.jst": the first block in inner.jst next to
+		// the root file, the rest in sub/inner.jst, included from sub/wrap.jst (resolution is
+		// relative to the including file)
+		a1 := bounds[ai+1]
+		vAssume(!strings.Contains(doc[a1:b], "INCLUDE"))
+		delete(files, "piece.jst")
+		files["inner.jst"] = doc[a:a1]
+		files["sub/inner.jst"] = doc[a1:b]
+		files["sub/wrap.jst"] = "INCLUDE inner.jst" + nl
+		rootB = doc[:a] + "INCLUDE inner.jst" + nl + "INCLUDE sub/wrap.jst" + nl + doc[b:]
+	}
 
 	cA, jeA := vBuildProject(doc, vLayoutFiles)
 	cB, jeB := vBuildProject(rootB, files)
@@ -109,7 +121,7 @@ func HIncludeSplit() {
 		vAssert(vMsgClass(jeA) == vMsgClass(jeB), "c09-include-changes-error-class")
 		// "rejected with the same message": the whole text, not only its class
 		vAssert(jeA.Msg == jeB.Msg, "c09-include-changes-error-message")
-		if strings.HasSuffix(jeA.File.Name(), "/root.jst") && depth == 1 {
+		if strings.HasSuffix(jeA.File.Name(), "/root.jst") && depth == 1 && vParam("dirs", 0) == 0 {
 			idx := int(jeA.Index)
 			switch {
 			case idx < a:
